@@ -117,6 +117,14 @@ func GenPool(r *Rng, n int, ics []string) []string {
 		}
 		add(g + pick(r, []string{"bx", "cy", "a1", "d/"}))
 	}
+	if r.Pct(5) {
+		// five or more children directly below the root: patterns without a leading slash and with distinct
+		// first bytes (what a router mounted behind http.StripPrefix sees)
+		for _, a := range []string{"a", "b", "c", "d", "e", "f", "g"}[:r.Range(5, 7)] {
+			add(a + pick(r, []string{"1", "/b", "-m", "/" + pick(r, tok1), "", ".html"}))
+		}
+		n += 7
+	}
 	// rare shapes: a pattern with more parameters than a pooled context may keep (30), a very long
 	// literal segment, a deep chain of parameters
 	if r.Pct(6) {
@@ -268,6 +276,9 @@ func GenICs(r *Rng) []string {
 		if r.Pct(60) {
 			ics = append(ics, ic)
 		}
+	}
+	if r.Pct(5) {
+		ics = append(ics, "") // an interceptor registered under the empty name: {id} and {id:} stay named parameters
 	}
 	return ics
 }
